@@ -95,6 +95,11 @@ std::string UrlDecode(const std::string &url_str)
             }
         }
     }
+
+    //! 以不完整的 %X 或 % 结尾
+    if (state != State::kNone)
+        throw std::out_of_range("incomplete %XX at the end");
+
     return local_str;
 }
 
